@@ -35,6 +35,8 @@ def modelled : List (String × String) := [
   ("constant_folding", "FoldConstants"),
   ("", "bind_names"),
   ("", "resolve_names"),
+  -- a taint trigger name that is only declared `global` (never bound in the module) still means the builtin
+  ("", "stmt:for binding in module.bindings:\n    if binding.name in ['exec', 'eval', 'locals', 'globals', 'vars'] and is_only_declared(binding):\n        module.tainted = True"),
   ("remove_builtin_exception_brackets and (not module.tainted)", "remove_no_arg_exception_call"),
   ("module.tainted", "taint-gating"),
   ("preserve_locals is None", preserveLocalsBlock),
